@@ -13,18 +13,23 @@ Definition sym_dec : forall a b : sym, {a = b} + {a <> b} := list_eq_dec Z.eq_de
 Definition dbl := option (Z * Z).           (* Some (m, e) = m * 2^e ; None = nan or infinity *)
 Definition cell := (list nat * list nat * list nat * nat)%type.   (* cX, cY, cXY, n *)
 
+(* ref = the exact layer as RECOVERED FROM /repo during the call (the arguments of math.log / np.log2 spied by the
+   harness, turned back into multiplicities), one cell per entropy-bearing unit; None when the code did not
+   compute it through those calls (then only the double is compared) *)
+Definition refs := option (list cell).
+
 (* one call of a sequence on ONE array object that is modified in place between the calls:
    rows = the contents of the array AT THE TIME of that call *)
 Inductive step :=
-| SAce (rows : list (list Z)) (ref : list (list nat * nat)) (obs : res dbl)
-| SAmi (rows : list (list Z)) (d : Z) (ref : list cell) (obs : res dbl).
+| SAce (rows : list (list Z)) (ref : refs) (obs : res dbl)
+| SAmi (rows : list (list Z)) (d : Z) (ref : refs) (obs : res dbl).
 
 Inductive case :=
-| CShannon (s : list sym) (ref : list nat) (obs : res dbl)
-| CJoint (X Y : list sym) (ref : list nat) (obs : res dbl)
-| CMI (X Y : list sym) (ref : cell) (obs : res dbl)
-| CACE (rows : list (list Z)) (ref : list (list nat * nat)) (obs : res dbl)
-| CAMI (rows : list (list Z)) (d : Z) (ref : list cell) (obs : res dbl)
+| CShannon (s : list sym) (ref : refs) (obs : res dbl)
+| CJoint (X Y : list sym) (ref : refs) (obs : res dbl)
+| CMI (X Y : list sym) (ref : refs) (obs : res dbl)
+| CACE (rows : list (list Z)) (ref : refs) (obs : res dbl)
+| CAMI (rows : list (list Z)) (d : Z) (ref : refs) (obs : res dbl)
 | CSeq (steps : list step).
 
 Definition step_case (s : step) : case :=
@@ -45,14 +50,10 @@ Definition model_out1 (c : case) : res (list cell * I.type) :=
   | CSeq _ => Ok ([], I.nai)
   end.
 
-Definition reference (c : case) : list cell :=
+Definition reference (c : case) : refs :=
   match c with
-  | CShannon s ref _ => [(ref, [], [], length s)]
-  | CJoint X _ ref _ => [([], [], ref, length X)]
-  | CMI _ _ ref _ => [ref]
-  | CACE _ ref _ => map (fun cn => (fst cn, [], [], snd cn)) ref
-  | CAMI _ _ ref _ => ref
-  | CSeq _ => []
+  | CShannon _ ref _ | CJoint _ _ ref _ | CMI _ _ ref _ | CACE _ ref _ | CAMI _ _ ref _ => ref
+  | CSeq _ => None
   end.
 
 Definition observed (c : case) : res dbl :=
@@ -61,16 +62,29 @@ Definition observed (c : case) : res dbl :=
   | CSeq _ => Ok None
   end.
 
-Definition natlist_eqb := list_eqb Nat.eqb.
+(* equality up to order (the order in which the code visits symbols, pairs or cells is incidental) *)
+Fixpoint remove_first {A} (eqb : A -> A -> bool) (x : A) (l : list A) : option (list A) :=
+  match l with
+  | [] => None
+  | y :: t => if eqb x y then Some t else option_map (cons y) (remove_first eqb x t)
+  end.
+Fixpoint perm_eqb {A} (eqb : A -> A -> bool) (a b : list A) : bool :=
+  match a with
+  | [] => match b with [] => true | _ => false end
+  | x :: a' => match remove_first eqb x b with Some b' => perm_eqb eqb a' b' | None => false end
+  end.
+Definition natbag_eqb := perm_eqb Nat.eqb.
 Definition cell_eqb (a b : cell) : bool :=
   let '(a1, a2, a3, a4) := a in let '(b1, b2, b3, b4) := b in
-  natlist_eqb a1 b1 && natlist_eqb a2 b2 && natlist_eqb a3 b3 && Nat.eqb a4 b4.
+  natbag_eqb a1 b1 && natbag_eqb a2 b2 && natbag_eqb a3 b3 && Nat.eqb a4 b4.
+Definition exact_agrees (cells : list cell) (r : refs) : bool :=
+  match r with None => true | Some l => perm_eqb cell_eqb cells l end.
 
 (* agreement: same verdict (the class ValueError is part of the property); when accepted, the exact layer
-   equals the reference counts and the double is finite and within 2^-30 of the enclosed real value *)
+   equals (up to order) the multiplicities recovered from the call and the double is finite and within 2^-30 of the enclosed real value *)
 Definition check1 (c : case) : bool :=
   match model_out1 c, observed c with
-  | Ok (cells, iv), Ok (Some (m, e)) => list_eqb cell_eqb cells (reference c) && within prec80 iv m e
+  | Ok (cells, iv), Ok (Some (m, e)) => exact_agrees cells (reference c) && within prec80 iv m e
   | Raise e, Raise f => exc_eqb e f
   | _, _ => false
   end.
@@ -88,7 +102,7 @@ Definition model_out (c : case) : res (list cell * I.type) :=
   | CSeq steps =>
       match filter (fun s => negb (check1 (step_case s))) steps with
       | s :: _ => model_out1 (step_case s)
-      | [] => model_out1 (step_case (last steps (SAce [] [] (Ok None))))
+      | [] => model_out1 (step_case (last steps (SAce [] None (Ok None))))
       end
   | _ => model_out1 c
   end.
